@@ -710,7 +710,11 @@ pub fn gen_c17(tier: &str, seed: u64, out: &mut Vec<String>) {
         let argv = mk(&mut rng, argc);
         let envp = mk(&mut rng, envc);
         // empty strings serialise as "-" which would read as an empty list: use explicit entry "-"? keep lists of non-empty hex
-        let len = *rng.pick(&[0u64, 8, 0x28, 0x40, 0x100, 0x1000, 0x1001, 0x2345]);
+        let mut len = *rng.pick(&[0u64, 8, 0x28, 0x40, 0x100, 0x1000, 0x1001, 0x2345]);
+        if rng.chance(1, 25) {
+            // sizes nobody can provide, up to the ones whose frame arithmetic leaves 64 bits: an error, never a crash
+            len = *rng.pick(&[u64::MAX, u64::MAX - 15, u64::MAX - 0x47, u64::MAX - 0x1000, 1 << 63, 1 << 52]);
+        }
         // the program start may be set up on a machine that already has a stack (an earlier init_stack, a first program start, or
         // just an area that happens to be called "Stack"): the new frame goes into the new area
         match rng.below(12) {
